@@ -942,3 +942,111 @@ def rule_validation_converted(check, rule):
                                     'of one name leaves %s as a plain ValueError' % (callee.name, why, fi.name), key=key,
                                     witness="merge(s('a, *args, **kwargs'), s('b, a, *args, **kwargs')) raises ValueError('duplicate parameter name')")
     check.floor(rule, 'ValueError-raising calls in merge/embed', n, 4)
+
+
+def _handler_covers(es, fi, node, wanted):
+    """is `node` inside a try (of fi) with a handler that catches every class in `wanted` and does not let it continue?"""
+    for tr, hs in es.try_chain(fi, node):
+        left = set(wanted)
+        for h, names, rer in hs:
+            if rer not in ('no', None, False):
+                continue
+            for w in list(left):
+                if any(nm and (nm == w or es.catches(nm, w)) for nm in names):
+                    left.discard(w)
+        if not left:
+            return True
+    return False
+
+
+def rule_user_value_operations(check, rule):
+    """C07.R14 (D50): discovery looks at live values -- attributes of the instance, globals, what a partial binds -- and these need not
+    behave.  In the closure of automatic discovery every operation that hands such a value to an operation with a precondition is inside a
+    handler that turns the failure into the fallback: `getattr(<resolved object>, name)` (a property may raise anything: Exception),
+    `<list>.extend(<resolved>)` / `<dict>.update(<resolved>)` (TypeError, ValueError: the value spread into the call is None, a string...),
+    `sig.bind_partial(*args, **kwargs)` / `sig.bind(...)` (TypeError: the object cannot take what it is bound to; inspect reports that
+    as ValueError, which plain retrieval reproduces)."""
+    repo = check.repo
+    cg, es = get_escape(check)
+    roots = ['_autoforwards:autoforwards']
+    n = 0
+    for k in sorted(cg.closure(roots)):
+        fi = repo.func(k, required=False)
+        if fi is None or fi.module.name != '_autoforwards':
+            continue
+        params = set(fi.params()[0]) | set(x for x in [fi.params()[1], fi.params()[3]] if x)
+        for c in _own_nodes(fi.node):
+            if not isinstance(c, ast.Call):
+                continue
+            want = None
+            what = None
+            if isinstance(c.func, ast.Name) and c.func.id == 'getattr' and len(c.args) == 2 and not isinstance(c.args[1], ast.Constant):
+                # (a constant name on a known kind of object is an ordinary attribute read: C07.R4b)
+                want, what = ['Exception'], 'getattr() on a resolved object runs its properties'
+            elif isinstance(c.func, ast.Attribute) and c.func.attr in ('bind_partial', 'bind') and any(isinstance(a, ast.Starred) for a in c.args):
+                want, what = ['TypeError'], 'binding what the object is bound to'
+            elif isinstance(c.func, ast.Attribute) and c.func.attr in ('extend', 'update') and len(c.args) == 1 and isinstance(c.args[0], ast.Call) \
+                    and not isinstance(c.args[0].func, ast.Attribute):
+                callee = c.args[0].func
+                nested = [x for x in _own_nodes(fi.node) if isinstance(x, ast.FunctionDef) and isinstance(callee, ast.Name) and x.name == callee.id]
+                resolves = isinstance(callee, ast.Name) and (callee.id == 'resolve_name' or any(
+                    isinstance(y, ast.Call) and norm(y.func) == 'resolve_name' for x in nested for y in ast.walk(x)))
+                if resolves:
+                    want, what = ['TypeError', 'ValueError'], 'spreading a resolved value into a list / a mapping'
+            if want is None:
+                continue
+            n += 1
+            check.analysed(fi)
+            key = 'user-value|%s|%s' % (fi.key, norm_locals(fi.node, c.func, method=fi.cls is not None))
+            st = site_of(fi, c)
+            if _handler_covers(es, fi, c, want):
+                check.holds(rule, st, '%s: %s is handled (%s)' % (norm(c)[:50], what, '/'.join(want)), key=key)
+            else:
+                check.violation(rule, st, '%s: %s, and no handler around it catches %s -- the failure leaves sigtools.signature instead of making '
+                                'discovery fall back' % (norm(c)[:50], what, '/'.join(want)), key=key,
+                                witness='class C:\n    prefix = None\n    def m(self, *args, **kwargs): return f(*self.prefix, **kwargs)\n'
+                                        'sigtools.signature(C().m) raises TypeError; inspect.signature succeeds')
+    check.floor(rule, 'operations on resolved values in discovery', n, 4)
+
+
+def rule_sphinx_hook_total(check, rule):
+    """C07.R15 (D49): "the Sphinx autodoc hook never raises for a documentable object".  In process_signature every call that is handed the
+    documented object (binding it, retrieving its signature) lies in a try whose handler catches Exception, and the look-up of the dotted
+    name is handled for AttributeError and ValueError (a top-level module leaves the empty name to import)."""
+    repo = check.repo
+    cg, es = get_escape(check)
+    fi = repo.func('sphinxext:process_signature')
+    check.analysed(fi)
+    n = 0
+    objnames = set()
+    # the documented object: what the look-up returns, under every local name it gets
+    for x in _own_nodes(fi.node):
+        if isinstance(x, ast.Assign) and isinstance(x.value, ast.Call) and norm(x.value.func).endswith('fetch_dotted_name'):
+            for t in x.targets:
+                for nm in ast.walk(t):
+                    if isinstance(nm, ast.Name):
+                        objnames.add(nm.id)
+            n += 1
+            key = 'sphinx-total|lookup'
+            if _handler_covers(es, fi, x.value, ['AttributeError', 'ValueError']):
+                check.holds(rule, site_of(fi, x), 'the look-up of the dotted name is handled for AttributeError and ValueError', key=key)
+            else:
+                check.violation(rule, site_of(fi, x), 'the look-up of the dotted name is not handled for both AttributeError and ValueError: a top-level '
+                                'module name (automodule:: json) makes it import the empty name, which raises ValueError', key=key,
+                                witness="process_signature(app, 'module', 'json', json, {}, None, None)")
+    for c in _own_nodes(fi.node):
+        if not isinstance(c, ast.Call):
+            continue
+        if norm(c.func) in ('isinstance', 'callable', 'type') or norm(c.func).endswith('fetch_dotted_name'):
+            continue
+        if not any(isinstance(a, ast.Name) and a.id in objnames for a_ in list(c.args) + [k.value for k in c.keywords] for a in ast.walk(a_)):
+            continue
+        n += 1
+        key = 'sphinx-total|%s' % norm_locals(fi.node, c.func)
+        if _handler_covers(es, fi, c, ['Exception']):
+            check.holds(rule, site_of(fi, c), '%s is inside the try that leaves the signature alone on any failure' % norm(c)[:50], key=key)
+        else:
+            check.violation(rule, site_of(fi, c), '%s is handed the documented object outside any `except Exception`: binding a method inherited from a C '
+                            'type to a dummy instance raises TypeError, and Sphinx drops the member' % norm(c)[:50], key=key,
+                            witness="process_signature(app, 'method', 'collections.Counter.get', collections.Counter.get, {}, None, None)")
+    check.floor(rule, 'operations on the documented object', n, 3)
